@@ -23,9 +23,22 @@ Proof. intro H. exact (proj1 (run_hist_kept ops n n' H)). Qed.
 Theorem C12_reject_before_change (n n' : node) (o : op) (p : phase) (e : exn) :
   step n o = Err p e n' -> p <> PCore ->
   same_node n n' /\
-  (is_fit o = false \/ p = PSupport -> n' = n) /\
+  (is_fit o = false \/ p = PSupport -> p <> PInit \/ (forall td, op_y o <> Some (DTeacher td)) -> n' = n) /\
   (is_fit o = true -> p <> PSupport -> n' = clean_buffers n).
 Proof. exact (reject_before_change n n' o p e). Qed.
+(* (the only other trace: a train whose target is a teacher NODE accepted by check_xy and whose initialisation then fails
+   keeps that teacher registered — mirrored from the code, see C12_uninitialised_teacher_stays_refuted) *)
+
+(* 2b. Targets given as a teacher node: a teacher whose known output size differs from the node's is rejected by check_xy
+       and NOT registered — the node is literally unchanged; and an accepted operation never leaves a teacher behind. *)
+Theorem C12_teacher_mismatch_rejected (n : node) (x : data) (o t : nat) :
+  has_online (nkind n) = true -> output_dim n = Some o -> t <> o ->
+  exists e, step n (OTrain x (Some (DTeacher (Some t)))) = Err PCheck e n.
+Proof. exact (teacher_mismatch_rejected n x o t). Qed.
+
+Theorem C12_no_teacher_left_behind (n n' : node) (o : op) (out : option (nat * nat)) :
+  step n o = Ok n' out -> teacher n = None -> teacher n' = None.
+Proof. exact (step_ok_teacher n n' o out). Qed.
 
 (* 3. Operations the node has no rule for: offline fit / partial_fit of a node without offline rule, train of a node
       without online rule -> TypeError, node unchanged. *)
@@ -64,7 +77,7 @@ Theorem C12_wrong_target_rejected (n : node) (o : op) (num : bool) (sh : list na
   output_dim n = Some m -> op_y o = Some (DArr num sh) -> Forall (fun s => 1 <= s) sh -> feat sh <> m ->
   exists e n', step n o = Err PCheck e n' /\ same_node n n'.
 Proof.
-  intros S K O Y P F. apply (bad_target_rejected n o (DArr num sh)); auto.
+  intros S K O Y P F. apply (bad_target_rejected n o (DArr num sh)); auto; [intros td; discriminate|].
   intros ans ats. rewrite O. exact (cns_wrong_feature num sh m ans false ats P F).
 Qed.
 
@@ -179,9 +192,9 @@ Proof. exists [1; 2; 2; 5], 3. vm_compute. split; [discriminate|reflexivity]. Qe
    a 3-D array given to call() of an initialised node passes check_xy (state-not-2d:3d-input) ... *)
 Theorem C12_3d_input_accepted_refuted :
   exists n x, initialized n = true /\ input_dim n = Some [3] /\
-    check_xy n x None false true false = ROk (x, None) /\ x = DArr true [2; 1; 3] /\ step n (OCall x) = Irregular.
+    check_xy n x None false true false = ROk (x, YNone) /\ x = DArr true [2; 1; 3] /\ step n (OCall x) = Irregular.
 Proof.
-  exists (mkNode KSame true (Some [3]) (Some 3) (Some [1; 3]) 1 1 false false), (DArr true [2; 1; 3]).
+  exists (mkNode KSame true (Some [3]) (Some 3) (Some [1; 3]) 1 1 false None false), (DArr true [2; 1; 3]).
   vm_compute. repeat split; reflexivity.
 Qed.
 
@@ -198,8 +211,23 @@ Proof.
   intros n I. unfold check_xy. rewrite I. reflexivity.
 Qed.
 
+(* OPEN finding mirrored by the model: a never-initialised teacher node (no known dimension) passes check_xy and is
+   registered; fetching its value then raises RuntimeError and Node.train only unregisters a teacher on success, so the
+   teacher stays and the next, perfectly valid, train(X, Y array) fails the same way *)
+Theorem C12_uninitialised_teacher_stays_refuted :
+  exists n n', initialized n = true /\ teacher n = None /\
+    step n (OTrain (DArr true [4; 3]) (Some (DTeacher None))) = Err PCore RuntimeError n' /\ teacher n' = Some None /\
+    step n' (OTrain (DArr true [4; 3]) (Some (DArr true [4; 2]))) = Err PCore RuntimeError n' /\
+    (exists n2, step n (OTrain (DArr true [4; 3]) (Some (DArr true [4; 2]))) = Ok n2 (Some (4, 2))).
+Proof.
+  exists (mkNode KOnline true (Some [3]) (Some 2) (Some [1; 2]) 1 1 false None false).
+  eexists. vm_compute. repeat split; try reflexivity. eexists; reflexivity.
+Qed.
+
 Print Assumptions C12_dims_immutable.
 Print Assumptions C12_reject_before_change.
+Print Assumptions C12_teacher_mismatch_rejected.
+Print Assumptions C12_no_teacher_left_behind.
 Print Assumptions C12_unsupported_rejected.
 Print Assumptions C12_unsupported_cases.
 Print Assumptions C12_wrong_feature_rejected.
@@ -221,3 +249,4 @@ Print Assumptions C12_sklearn_state_refuted.
 Print Assumptions C12_too_many_dims_prefix_refuted.
 Print Assumptions C12_3d_input_accepted_refuted.
 Print Assumptions C12_ragged_uninitialised_refuted.
+Print Assumptions C12_uninitialised_teacher_stays_refuted.
